@@ -151,7 +151,11 @@ func (dss *dataStoreSet) dbSize(index int) (size respInt, valid bool) {
 
 	ds, exists := dss.dbs[index]
 	if exists {
+		// the key count is maintained under the database lock
+		dsc := ds.newDataStoreCommand()
+		dsc.lock()
 		size = respInt(ds.data.count)
+		dsc.unlock()
 		valid = true
 	}
 
